@@ -28,6 +28,12 @@ const prelude = `(declare-sort Str 0)
 (declare-fun strunbox ((_ BitVec 64)) Str)
 `
 
+// quantPrelude: injectivity of element / sub-object addresses for terms under quantifiers
+// (for ground terms the same facts are asserted per term).
+const quantPrelude = `(assert (forall ((b (_ BitVec 64)) (i (_ BitVec 64))) (! (and (= (elt_base (elt b i)) b) (= (elt_idx (elt b i)) i) (= (sub_fid (elt b i)) #x0002)) :pattern ((elt b i)))))
+(assert (forall ((k (_ BitVec 16)) (r (_ BitVec 64))) (! (and (= (sub_owner (sub k r)) r) (= (sub_fid (sub k r)) k)) :pattern ((sub k r)))))
+`
+
 type SolveResult struct {
 	Status  string // "unsat", "sat", "unknown", "timeout", "error"
 	Backend string
@@ -45,6 +51,9 @@ func (o *Obligation) smt(forCvc5 bool, getModel bool) string {
 		b.WriteString("(set-logic ALL)\n")
 	}
 	b.WriteString(prelude)
+	if o.Quant && !o.Cover {
+		b.WriteString(quantPrelude)
+	}
 	for _, d := range o.fc.decls[:o.NDecl] {
 		b.WriteString(d)
 		b.WriteByte('\n')
@@ -196,6 +205,9 @@ func (o *Obligation) explain(timeoutS int) string {
 	var b strings.Builder
 	b.WriteString("(set-option :produce-models true)\n")
 	b.WriteString(prelude)
+	if o.Quant {
+		b.WriteString(quantPrelude)
+	}
 	for _, d := range o.fc.decls[:o.NDecl] {
 		b.WriteString(d)
 		b.WriteByte('\n')
